@@ -110,8 +110,66 @@ async def run(root, prefix, names):
     return out
 
 
+async def run_raw(root, prefix, scripts, base_dir):
+    """Raw scripts (as real_e2e.run_raw_script) through the real aiohttp server; every script on a fresh copy."""
+    import re
+    results = []
+    P = prefix.rstrip("/")
+    for i, script in enumerate(scripts):
+        work = os.path.join(base_dir, "w%d" % i)
+        shutil.copytree(root, work, symlinks=True)
+        async with TestClient(TestServer(build_app(work, prefix))) as c:
+            base = str(c.make_url("/")).rstrip("/")
+
+            async def req(method, path_info, **kw):
+                return await c.session.request(method, URL(base + P + urllib.parse.quote(path_info), encoded=True),
+                                               allow_redirects=False, **kw)
+            out = []
+            for rq in script:
+                headers = {}
+                for k, v in rq.get("h", []):
+                    m = re.match(r"^(.*)\$ETAG\(([^)]*)\)(.*)$", v)
+                    if m:
+                        cur = await req("HEAD", m.group(2))
+                        et = cur.headers.get("ETag") if cur.status < 300 else '"none"'
+                        v = m.group(1) + et + m.group(3)
+                    headers[k] = v
+                if "xml" in rq:
+                    body, ct = rq["xml"].encode("utf-8"), rq.get("ct", "text/xml")
+                elif "tok" in rq:
+                    name = rq["p"].rsplit("/", 1)[1] or "x.ics"
+                    ct = rq.get("ct")
+                    body = R.real_body(name, rq["tok"].encode("latin-1"), ct)
+                else:
+                    body, ct = None, rq.get("ct")
+                if ct:
+                    headers["Content-Type"] = ct
+                r = await req(rq["m"], rq["p"], data=body, headers=headers)
+                b = await r.read()
+                if rq["m"] == "GET" and r.status == 200 and not rq["p"].endswith("/"):
+                    b = b"TOKEN:" + R.token_of(rq["p"].rsplit("/", 1)[1], b)
+                if r.status >= 500:
+                    b = b""
+                keep = {k: r.headers[k] for k in ("ETag", "Location", "Allow") if k in r.headers}
+                out.append({"st": r.status, "h": keep, "b": b.decode("latin-1")})
+            results.append(out)
+        shutil.rmtree(work, ignore_errors=True)
+    return results
+
+
 def main():
-    job = json.loads(sys.argv[1])
+    job = json.loads(sys.argv[1]) if len(sys.argv) > 1 and sys.argv[1] != "-" else json.loads(sys.stdin.read())
+    if job.get("raw"):
+        top = tempfile.mkdtemp(prefix="xv-aio-")
+        try:
+            base = os.path.join(top, "base")
+            os.makedirs(base)
+            root = R.setup(base, job)
+            res = asyncio.run(run_raw(root, job["prefix"], job["scripts"], top))
+        finally:
+            shutil.rmtree(top, ignore_errors=True)
+        sys.stdout.write(json.dumps(res))
+        return
     top = tempfile.mkdtemp(prefix="xv-aio-")
     try:
         root = R.setup(top, {"cal": {}, "ab": {}})
